@@ -45,7 +45,7 @@ PARITY_SYMS = ("Z2", "U1", "U1xU1", "U1xU1xZ2")
 
 
 def budget(tier):
-    return 4000 if tier == "quick" else 60000
+    return 10000 if tier == "quick" else 80000
 
 
 def _generating():
